@@ -6,9 +6,9 @@ LEVEL = 'exploration'
 BUDGET = {'quick': 30, 'thorough': 400}
 FLOOR = {'quick': 10000, 'thorough': 150000}
 RULE = ('list-like values: lists of 0..6 elements with every separator (undecided, space, comma, slash) x bracket combination, '
-        'single values, empty lists, maps (0..4 pairs, the empty map made by map.remove) and argument lists (0..6 positional '
+        'single values (also null), empty lists, maps (0..4 pairs, the empty map made by map.remove) and argument lists (0..6 positional '
         'arguments, with and without a trailing comma in the call, returned by a rest-parameter function); elements are small integers, two dimensions, identifiers and '
-        'short nested lists.  First a fixed table of 42 values: every unary operation on each and join (5 $separator x 4 '
+        'short nested lists.  First a fixed table of 43 values: every unary operation on each and join (5 $separator x 4 '
         '$bracketed choices) and zip on every ordered pair; then seeded random values.  Operations: length, separator, '
         'is-bracketed, nth and set-nth at EVERY index in [-n-2, n+2], append (value or list; $separator omitted, auto, space, '
         'comma, slash), join, index (each element, absent value, quoted twin, nested list, map pair), zip of 0..3 lists; '
@@ -72,7 +72,8 @@ def A(items, tc=False):
 DEV_TC = 'arglist-trailing-comma-iterates-extra-null'       # zip / @each over al(a, b,) see a third element null
 DEV_INDEX_ARGLIST = 'index-on-arglist-finds-nothing'        # list.index(al(a), a) is null
 DEV_INDEX_MAP_BRK = 'index-on-map-ignores-brackets-of-the-searched-pair'    # list.index((d: 4), [d 4]) is 1
-DEVIATIONS = [DEV_TC, DEV_INDEX_ARGLIST, DEV_INDEX_MAP_BRK]
+DEV_LEN_NULL = 'length-of-null-is-zero'                      # list.length(null) is 0; null is a single value like any other
+DEVIATIONS = [DEV_TC, DEV_INDEX_ARGLIST, DEV_INDEX_MAP_BRK, DEV_LEN_NULL]
 
 
 class SassError(Exception):
@@ -143,6 +144,8 @@ def model(case, dev=frozenset()):
     if f == 'identity':
         return v
     if f == 'length':
+        if DEV_LEN_NULL in dev and v['k'] == 's' and v['x'] == 'null':
+            return S('0')
         return S(str(len(aslist(v))))
     if f == 'separator':
         return S(sep_of(v) or 'space')
@@ -429,7 +432,7 @@ def table():
                 continue
             for brk in (False, True):
                 t.append(L(abc[:n], sep, brk))
-    t += [S('a'), S('1'), S('7px')]
+    t += [S('a'), S('1'), S('7px'), S('null')]
     t += [M([]), M([(S('a'), S('1'))]), M([(S('a'), S('1')), (S('b'), S('2'))]), M([(S('1'), S('a')), (S('b'), NESTED[0]), (S('c'), S('3'))])]
     t += [A([]), A([S('a')]), A([S('a'), S('b')]), A([S('1'), NESTED[0], S('3')]), A([S('a'), S('b')], tc=True)]
     t += [L([S('a'), S('b'), S('a'), S('b')], 'space'), L([NESTED[0], S('a'), NESTED[0], NESTED[1]], 'comma')]
@@ -447,7 +450,7 @@ def gen_elem(rng):
 def gen_value(rng):
     r = rng.random()
     if r < 0.1:
-        return gen_scalar(rng)
+        return S('null') if r < 0.015 else gen_scalar(rng)
     if r < 0.25:
         n = rng.randint(0, 4)
         keys = rng.sample(IDENTS + NUMS[:6], n)
